@@ -313,6 +313,11 @@ def run_direct(stmts, acks, status=None, late_hs=False, settle=0.02, do_disconne
             serve_handshake()
             time.sleep(0.001)
         serve_handshake()
+        if not late_hs:
+            # a device that has answered every start-up line before the first statement: wait until the host's
+            # reader has taken those answers (otherwise the run is inside finding F12 by accident)
+            await_(lambda: not hub.released, 2.0)
+            time.sleep(settle)
         hub.log({"k": "connected", "res": str(results.get("connect"))})
         try:
             for k, stmt in enumerate(stmts, start=1):
